@@ -170,10 +170,13 @@ def check_conversion(spec, viols, key=""):
                       {"observed": names, "expected": exp}))
     for d in deps:
         if d.name in ("react", "react-dom"):
-            src = d.source_path_map()["source"]
-            for sc in d.script:
-                if not os.path.isfile(os.path.join(src, sc["src"])):
-                    viols.append((key + "react-file-missing", f"{sc['src']} not in {src}", {}))
+            ck = (d.name, str(d.version), repr(d.source), repr(d.script))
+            if ck not in _FILES_OK:
+                src = d.source_path_map()["source"]
+                _FILES_OK[ck] = [sc["src"] for sc in d.script
+                                 if not os.path.isfile(os.path.join(src, sc["src"]))]
+            for missing in _FILES_OK[ck]:
+                viols.append((key + "react-file-missing", f"{missing} does not exist in the package", {}))
     texts = [c for c in res.children if isinstance(c, (str, HTML))]
     if len(texts) != 1:
         viols.append((key + "script-text", f"script has {len(texts)} text children", {}))
@@ -189,6 +192,9 @@ def check_conversion(spec, viols, key=""):
         viols.append((key + "expression-mismatch", "React.createElement expression does not mirror the component",
                       {"observed": got, "expected": want, "js": str(texts[0])}))
     return res
+
+
+_FILES_OK = {}
 
 
 def nontrivial(spec):
